@@ -48,8 +48,8 @@ EXPLANATION = (
 )
 RESIDUAL = [
     "numeric correctness of the layout arithmetic for the variable parts of ScionHeaderLayout (address header and path offsets): those sub-view ranges "
-    "(10 get_unchecked sites, listed in the evidence under subview.not_decided) are covered only by the taint rule, not bounded against the validated size; "
-    "the StandardPathView ranges are decided by SUBVIEW",
+    "(8 get_unchecked sites of ScionHeaderView, listed in the evidence under subview.not_decided) are covered only by the taint rule, not bounded against the validated size; "
+    "the StandardPathView and UdpDatagramView ranges are decided by SUBVIEW",
     "the remaining unsafe primitives outside view methods (get_unchecked in layout code; the *arguments* of from_*_unchecked sub-view creation inside accessors): enumerated in the evidence, not individually discharged",
     "termination (all loops in scope are iterator-driven: listed, not proved)",
 ]
@@ -912,7 +912,7 @@ def subview_rule(F, R, vts, fns):
                     end = v.fields[1] if len(v.fields) > 1 else None
                     start = v.fields[0]
                     for sc, size in szs:
-                        conds = [x for x in cd] + [x for x in sc if not any(a.startswith("len(") for a in x.t)]
+                        conds = list(cd) + list(sc)       # everything that held on the constructor's Ok path holds for the view
                         bound = end if end is not None else start
                         if not LN.implied_nonneg(size.sub(bound), conds) or (end is not None and not LN.implied_nonneg(end.sub(start), conds)):
                             ok = False
@@ -928,8 +928,8 @@ def subview_rule(F, R, vts, fns):
                 R.discharged -= 1
                 R.violation("SUBVIEW", "%s/get_unchecked" % p, "%s takes self.0.get_unchecked(range) where the range is not proven to lie within the bytes the view was "
                             "validated for (%s): out-of-bounds slice on a successfully constructed view" % (short(p), why), c.span.loc)
-    R.floor("SUBVIEW", len(proven), 8, "get_unchecked sites on self.0 proven within the validated size (StandardPathView accessors)")
+    R.floor("SUBVIEW", len(proven), 10, "get_unchecked sites on self.0 proven within the validated size (8 StandardPathView accessors, 2 UdpDatagramView)")
     R.extra["subview"] = {"sites": n, "proven": [(short(p), l) for p, l, w in proven], "not_decided": [(short(p), l, w[:120]) for p, l, w in undecided]}
 
 
-SUBVIEW_ARMED = r"view::StandardPathView::(hop_fields|hop_fields_mut|info_fields|info_fields_mut|hop_field|hop_field_mut|info_field|info_field_mut)$"
+SUBVIEW_ARMED = r"view::StandardPathView::(hop_fields|hop_fields_mut|info_fields|info_fields_mut|hop_field|hop_field_mut|info_field|info_field_mut)$|udp::view::UdpDatagramView::payload(_mut)?$"
